@@ -1071,12 +1071,71 @@ def mp_item(env, item):
     for w in src.inconclusive: p.observe('multi-process lane: run not completed', w[:200])
     if len(p.samples) < 1 and src.samples: p.samples.append({'mode': 'multi-process', 'backend': item['backend'], 'nproc': item['nproc'], **(src.samples[0] if isinstance(src.samples[0], dict) else {})})
     return p
+# ------------------------------------------------------------------------------------------------ (e) well-formed calls whose file-system operations fail
+FSF_CALLS = ('C_Initialize', 'C_OpenSession+C_Login', 'C_FindObjectsInit', 'C_GetAttributeValue', 'C_SetAttributeValue', 'C_CreateObject', 'C_CopyObject', 'C_GenerateKey', 'C_DestroyObject', 'C_Logout+C_Finalize')
+def fsfault_item(env, item):
+    """one well-formed call on the golden token with its k-th file-system operation failing (once, or that one and all later ones = a process at its descriptor limit / a disk that went away),
+    then an epilogue of well-formed calls without faults.  Only the C17 question is asked: is the host terminated, now or later?  (What the failing call returns is C05 / C09's business.)"""
+    p = Part(); ck = env['ck']; call = item['call']; d = os.path.join(env['scratch'], 'fsf'); root = os.path.join(d, 'tokens')
+    def login(x, s_):
+        for pn in USER_PIN:
+            if x.call('C_Login', s=s_, user=1, pin=pn.hex())['rv'] == 0: return True
+        return False
+    def prologue(x, upto):
+        st = {}
+        if upto == 'C_Initialize': return st
+        assert x.call('C_Initialize', locking='os')['rv'] == 0
+        st['slot'] = [sl for sl in x.call('C_GetSlotList', count=8)['slots'] if x.call('C_GetTokenInfo', slot=sl).get('flags', 0) & ck.CKF_TOKEN_INITIALIZED][0]
+        if upto == 'C_OpenSession+C_Login': return st
+        st['s'] = x.call('C_OpenSession', slot=st['slot'], flags=6)['h']; login(x, st['s'])
+        if upto == 'C_FindObjectsInit': return st
+        rvn, hs = x.findall(st['s'], {}); st['objs'] = hs
+        return st
+    def victim(x, st):
+        s_ = st.get('s'); o = (st.get('objs') or [0])[item['k'] % max(1, len(st.get('objs') or [0]))]
+        if call == 'C_Initialize': return [x.call('C_Initialize', locking='os')]
+        if call == 'C_OpenSession+C_Login': r1 = x.call('C_OpenSession', slot=st['slot'], flags=6); return [r1] + [x.call('C_Login', s=r1.get('h', 0), user=1, pin=pn.hex()) for pn in USER_PIN]
+        if call == 'C_FindObjectsInit': return [x.call('C_FindObjectsInit', s=s_, tmpl=[]), x.call('C_FindObjects', s=s_, max=100), x.call('C_FindObjectsFinal', s=s_)]
+        if call == 'C_GetAttributeValue': return [x.call('C_GetAttributeValue', s=s_, o=h, tmpl=[{'t': ck.CKA_LABEL, 'buf': 256}, {'t': ck.CKA_CLASS, 'buf': 8}, {'t': ck.CKA_VALUE, 'buf': 4096}]) for h in (st.get('objs') or [])[:6]]
+        if call == 'C_SetAttributeValue': return [x.call('C_SetAttributeValue', s=s_, o=o, tmpl=x.T([('CKA_LABEL', b'relabelled-under-fault')]))]
+        if call == 'C_CreateObject': return [x.call('C_CreateObject', s=s_, tmpl=x.T(K.resolve(ck, K.template('aes256', label='made-under-fault', token=True, private=True))))]
+        if call == 'C_CopyObject': return [x.call('C_CopyObject', s=s_, o=o, tmpl=x.T([('CKA_LABEL', b'copied-under-fault')]))]
+        if call == 'C_GenerateKey': return [x.call('C_GenerateKey', s=s_, mech=x.M('CKM_AES_KEY_GEN'), tmpl=x.T([('CKA_VALUE_LEN', 16), ('CKA_TOKEN', True), ('CKA_LABEL', b'generated-under-fault')]))]
+        if call == 'C_DestroyObject': return [x.call('C_DestroyObject', s=s_, o=o)]
+        return [x.call('C_Logout', s=s_), x.call('C_Finalize')]
+    def epilogue(x):
+        x.call('C_Finalize'); x.call('C_Initialize', locking='os')
+        for sl in x.call('C_GetSlotList', count=8).get('slots', []):
+            if not x.call('C_GetTokenInfo', slot=sl).get('flags', 0) & ck.CKF_TOKEN_INITIALIZED: continue
+            s_ = x.call('C_OpenSession', slot=sl, flags=6).get('h', 0); login(x, s_)
+            for h in x.findall(s_, {})[1][:40]: x.call('C_GetAttributeValue', s=s_, o=h, tmpl=[{'t': ck.CKA_LABEL, 'buf': 256}, {'t': ck.CKA_VALUE, 'buf': 4096}]); x.call('C_GetObjectSize', s=s_, o=h)
+            x.call('C_CreateObject', s=s_, tmpl=x.T(K.resolve(ck, K.template('data', label='after-the-fault', token=True, private=False))))
+        x.call('C_Finalize')
+    x = None; phase = 'prologue'
+    try:
+        shutil.rmtree(d, ignore_errors=True); x = new_exec(env, d, conf=clone_golden(env, d)); st = prologue(x, call)
+        if item['k'] == 0:
+            x.call('fs', mode='count', root=root); victim(x, st); n = x.call('fs', mode='status')['nops']; x.call('fs', mode='off'); p.extra_n = n; p.count('fsfault_ops:' + call, n); x.kill(); return p
+        x.call('fs', mode='fail', root=root, k=item['k'], errno=item['errno'], sticky=item['sticky']); phase = 'faulted call'
+        rs = victim(x, st); inj = x.call('fs', mode='status').get('injected'); x.call('fs', mode='off'); phase = 'epilogue'
+        for r in rs:
+            if r.get('rvname', '').startswith('CKR_?') or r.get('rv', 0) < 0: p.violation(f'{call}|fs-fault|not-a-CKR-code', 'a call whose file-system operation failed returned something that is not a PKCS#11 return code', {'rv': r.get('rv')})
+        epilogue(x); p.case(('fs-fault', call, item['errno'], item['sticky']), nontrivial=bool(inj)); p.count('fsfault_cases'); p.count('fsfault_injected', 1 if inj else 0)
+    except Died as e:
+        p.violation(f'{e.fn}|well-formed,fs-fault({"all-later-operations-fail" if item["sticky"] else "one-operation-fails"}):{call}|{death_sig(e)}', f'the library terminated the host process inside {e.fn} ({phase}) when a file-system operation of a well-formed {call} failed',
+                    {'mode': 'fsfault', 'call': call, 'k': item['k'], 'errno': item['errno'], 'sticky': item['sticky'], 'phase': phase, 'cfg': env['cfg'], 'backend': env['backend'], 'note': e.note, 'stderr_tail': report_head(e)}); p.count('deaths'); p.case(('fs-fault', call, item['errno'], item['sticky'])); x = None
+    except Hang: p.observe('fs-fault lane: a call did not return in time (not judged here)', {'call': call, 'k': item['k']})
+    except (AssertionError, Lost) as e: p.observe('fs-fault lane: case could not be set up', repr(e)[:200])
+    finally:
+        if x is not None: x.kill()
+    return p
 def run_item(job, env, item):
     p = Part()
     if job['mode'] == 'grid':
         fam, lo, hi = item; run_cells(env, fam, grid_cells(fam, env['ck'], env['seed'], env['scale'])[lo:hi], p)
     elif job['mode'] == 'api': run_sequence(env, item, p)
     elif job['mode'] == 'mp': return mp_item(env, item)
+    elif job['mode'] == 'fsfault': return fsfault_item(env, item)
     else: file_case(env, item, p)
     return p
 
@@ -1104,7 +1163,7 @@ def run(ctx):
                 'each a well-formed base request with 0-3 hostile edits (handles, lengths, buffers, templates, mechanism parameters, key/mechanism mismatches), then a well-formed epilogue; '
                 '(c) multi-process lane: serialised interleavings of 2-3 processes on one token (create / set / destroy / find / get on shared labels, handles of objects another process destroyed), file and db back-ends, judged only for termination; '
                 '(b) file fuzz: one structure-aware mutation of object file / token.object / generation / SQLite db / softhsm2.conf / directory layout per case, then a fixed recovery probe in a fresh executor. '
-                '(d) coverage-guided lane (15000 runs per target in quick, 300000 in thorough) (vlib/fuzzlane.py): libFuzzer harnesses built with ASan/UBSan from the current sources feed arbitrary bytes as <uuid>.object, token.object and softhsm2.conf to the real ObjectFile / OSToken / SimpleConfigLoader classes and to the DER / ByteString helpers, a fixed number of executions per target, one evaluation = one execution. '
+                '(e) well-formed calls (initialise, open + login, find, get / set attribute, create, copy, generate, destroy, logout + finalise) with the k-th file-system operation failing, once or from then on, followed by a fault-free epilogue: only termination is judged; (d) coverage-guided lane (15000 runs per target in quick, 300000 in thorough) (vlib/fuzzlane.py): libFuzzer harnesses built with ASan/UBSan from the current sources feed arbitrary bytes as <uuid>.object, token.object and softhsm2.conf to the real ObjectFile / OSToken / SimpleConfigLoader classes and to the DER / ByteString helpers, a fixed number of executions per target, one evaluation = one execution. '
                 'One evaluation = one hostile-sequence call or one mutated-file case; distinct = (entry point, hostile-input tag) pairs actually sent + distinct file-mutation classes; '
                 'violations: Died (ASan, signal, exit/abort/assert), UBSan null/bounds/object-size, non-CKR return value, reproduced hang')
     cfgs = ctx.q([('asan', 'file', 0.9, True), ('asan', 'db', 0.1, False)], [('asan', 'file', 0.4, True), ('asan', 'db', 0.25, True), ('botan', 'file', 0.2, True), ('botan', 'db', 0.15, True)])   # (build, back-end, share of the random workloads, run the directed grids)
@@ -1127,6 +1186,17 @@ def run(ctx):
                 for lo in range(0, ncell, b * 4): jobs.append(dict(mode='grid', env=dict(base, golden=ga, scale=scale), items=[(fam, i, min(i + b, ncell, lo + b * 4)) for i in range(lo, min(lo + b * 4, ncell), b)]))
         if cfg == 'asan':      # several processes sharing the token (both tiers, both back-ends)
             for i in range(ctx.q(2, 8)): jobs.append(dict(mode='mp', env=dict(base, golden=ga), items=[dict(backend=be, seed=ctx.seed * 1000 + 40 + i, nproc=2 + (i % 2), cases=ctx.q(40, 100))]))
+        if cfg == 'asan':      # well-formed calls with failing file-system operations (both back-ends): dry run per call kind for the operation count, then every k
+            fenv = dict(base, golden=gf, ck=ctx.ck, scratch=ctx.dir(f'fsf-plan-{be}')); fitems = []
+            for call in FSF_CALLS:
+                try: n_ops = int(getattr(fsfault_item(fenv, dict(call=call, k=0, errno=5, sticky=False)), 'extra_n', 0))
+                except Exception as e: ctx.observe('fs-fault lane: dry run failed', {'call': call, 'error': repr(e)[:200]}); continue
+                ks = list(range(1, min(n_ops, ctx.q(60, 400)) + 1))
+                for k in ks:
+                    fitems.append(dict(call=call, k=k, errno=[24, 5, 13, 28][k % (2 if ctx.quick else 4)], sticky=False))
+                    if k <= 12 or k % 5 == 0: fitems.append(dict(call=call, k=k, errno=24, sticky=True))
+            for i in range(0, len(fitems), 25): jobs.append(dict(mode='fsfault', env=dict(base, golden=gf), items=fitems[i:i + 25]))
+            ctx.extra.setdefault('fs_fault_cases_planned', {})[be] = len(fitems)
         n = int(nseq * share); items = list(range(seq0, seq0 + n)); seq0 += n
         for i in range(0, n, 20): jobs.append(dict(mode='api', env=dict(base, golden=ga), items=items[i:i + 20]))
         dirs = directed_items(dict(base, golden=gf, ck=ctx.ck))
